@@ -132,6 +132,54 @@ theorem exhausts_all_retries (cfg : Cfg) (h1 : 1 ≤ cfg.maxRetries) (sc : Scrip
     simp only [] at a1
     exact ⟨by omega, a2⟩
 
+/-- **re-invokes while attempts fail – giving up early always has one of the two stated reasons**: when fewer than
+    1 + MaxRetries calls were made (MaxRetries ≥ 1), the run ended by a success, by `ctx.Done()` in the `select`, or by the
+    back-off reporting `Stop` (MaxElapsedTime); never silently -/
+theorem gives_up_early_only_for_a_reason (cfg : Cfg) (h1 : 1 ≤ cfg.maxRetries) (sc : Script)
+    (hlt : (retry cfg sc).attempts.length < 1 + cfg.maxRetries.toNat) :
+    (retry cfg sc).why = .success ∨ (retry cfg sc).why = .ctxDone ∨ (retry cfg sc).why = .backoffStop := by
+  have hfuel := never_out_of_fuel cfg sc
+  cases hw : (retry cfg sc).why with
+  | success => simp
+  | ctxDone => simp
+  | backoffStop => simp
+  | outOfFuel => exact absurd hw hfuel
+  | exhausted =>
+    exfalso
+    unfold retry at hlt hw
+    cases he : sc.first.err with
+    | none => simp [he] at hw
+    | some e =>
+      simp only [he, push_attempts, List.length_cons, push_why] at hlt hw
+      have := loop_exhausted cfg sc (sc.firstDur + sc.resetLag) (fuelFor cfg)
+        ⟨1, cfg.init, sc.firstDur + sc.resetLag, sc.first.outs, e⟩ (by simpa using h1) hw
+      simp only [] at this
+      omega
+
+/-- `Stop` is reported only when MaxElapsedTime is configured -/
+theorem backoff_stop_needs_max_elapsed (cfg : Cfg) (sc : Script) (h : (retry cfg sc).why = .backoffStop) :
+    cfg.maxElapsed ≠ 0 := by
+  intro hE
+  have key : ∀ (fuel : Nat) (s : LoopSt) (t0 : Nat), (loop cfg sc t0 fuel s).why ≠ .backoffStop := by
+    intro fuel
+    induction fuel with
+    | zero => intro s t0; simp [loop]
+    | succ fuel ih =>
+      intro s t0
+      cases loop_cases cfg sc t0 fuel s with
+      | stop hs hr => simp [stops, hE] at hs
+      | ctx _ _ hr => simp [hr]
+      | ok _ _ _ _ hr => simp [hr]
+      | last _ _ _ _ _ _ hr => simp [hr]
+      | again late e _ _ _ _ hr => rw [hr]; simpa using ih _ _
+  unfold retry at h
+  cases he : sc.first.err with
+  | none => simp [he] at h
+  | some e => simp only [he, push_why] at h; exact key _ _ _ h
+
+example : (retry exCfg (exScript 2 fun _ => .timer 0)).attempts.length < 1 + exCfg.maxRetries.toNat ∧
+    (retry exCfg (exScript 2 fun _ => .timer 0)).why = .success := by decide
+
 /-! ### what is returned -/
 
 /-- at least one call is made, and the returned error is always the error of the last call made -/
